@@ -164,6 +164,15 @@ def run(ch, build):
     go = core.harness(cmds)
     model_all = core.oracle(cmds + ["spec_rbyte %d" % d for d in ds])
     ch.compare("rbyte", cmds, go, model_all[:len(cmds)], model_all[len(cmds):])
+    # the checksum as the wire sees it: IPMI messages of every NetFn class serialised by the library into a serialize
+    # buffer that has been used before (as every connection's is) must carry the two two's-complement checksums
+    from . import layers as L
+    msgs = [L.message(ch.rng, netfn=nf, n=n) for nf in (0x06, 0x07, 0x0a, 0x2c, 0x2d, 0x2e, 0x2f, 0x04)
+            for n in ((0, 1, 2, 5, 16, 40) if ch.quick() else range(0, 64)) if not (nf in (0x2c, 0x2d) and n < 1) and not (nf in (0x2e, 0x2f) and n < 3)]
+    cmds = ["rt message %s" % L.hx(m) for m in msgs]
+    go = core.harness(cmds)
+    mo = core.oracle(cmds)
+    ch.compare("message-checksums-on-the-wire", cmds, go, mo, mo)
     ch.exhaustive = True
     ch.extra["exhaustive_note"] = ("all finite domains enumerated completely; durations: %s" %
                                    ("every whole second 0..64 days" if not ch.quick() else
